@@ -306,13 +306,24 @@ func checkC04(c *Ctx, r *Report) {
 	n5 := 0
 	for _, o := range tmp5.Obls {
 		switch o.Rule {
-		case "K2", "K2b", "K3", "O5-parents", "O5-sort", "D6", "G-base", "G-prefix":
+		case "K2", "K2b", "K3", "O5-parents", "O5-sort", "D6", "G-base", "G-prefix", "G-cutset", "G-rooted":
 			o.Rule = "plan-" + o.Rule
 			r.Obls = append(r.Obls, o)
 			n5++
 		}
 	}
 	r.Floor("plan rules", n5, 40)
+	// stated in so many words: the .MTREE lists .PKGINFO first (rule of C03),
+	// an apk is [signature,] control, data - each the buffer that segment was
+	// written into (rule of C10) - and every archive starts in a buffer that
+	// holds nothing from an earlier build (rule of C11/C12)
+	r.Floor("mtree-F8", importRules(c, r, checkC03, "mtree-", []string{"F8"}, func(o Obligation) bool {
+		return strings.Contains(o.Construct, ".PKGINFO")
+	}), 1)
+	r.Floor("apk-F12-apk", importRules(c, r, checkC10, "apk-", []string{"F12-apk"}, func(o Obligation) bool {
+		return strings.Contains(o.Construct, "segment order of concatenation")
+	}, "apk segments"), 1)
+	r.Floor("fresh-G4", importRules(c, r, checkC11, "fresh-", []string{"G4"}, nil), 8)
 }
 
 func checkDebCompression(c *Ctx, r *Report, pk *Packager) {
